@@ -93,6 +93,9 @@ RawCell(B, h, off) ==
         sdepth |-> IF wh = 1 THEN [j \in 1..nh |-> UBE(B, off + 2 + nh * 32 + (j - 1) * 2, 2)] ELSE <<>>,
         refs |-> [j \in 1..(IF nr <= 4 THEN nr ELSE 0) |-> UBE(B, doff + dsz + (j - 1) * h.size, h.size) + 1]]
 
+\* an explicit sequence value: TLC keeps [k \in 1..N |-> e] as an unevaluated function and re-evaluates e at every
+\* application (and all of them at every Len); large bags need each cell decoded once
+Tup(f) == SubSeq(f, 1, Len(f))
 \* bag order -> children-first heap (index k |-> N + 1 - k)
 Flip(bheap) == LET N == Len(bheap) IN
     [k \in 1..N |-> LET c == bheap[N + 1 - k] IN [c EXCEPT !.r = [j \in 1..Len(c.r) |-> N + 1 - c.r[j]]]]
@@ -106,7 +109,7 @@ DecodeWith(B, hint, deep) ==
     ELSE IF h.hascrc /\ Crc32cLE(SubSeq(B, 1, Len(B) - 4)) # SubSeq(B, Len(B) - 3, Len(B)) THEN Err("crc")
     ELSE LET offs == IF hint = <<>> THEN ScanFrom(B, h, 1, h.dataoff, <<>>) ELSE hint IN
     IF offs = <<>> \/ ~OffsOk(B, h, offs) THEN Err("cell_overrun")
-    ELSE LET raw == [k \in 1..h.cells |-> RawCell(B, h, offs[k])] IN
+    ELSE LET raw == Tup([k \in 1..h.cells |-> RawCell(B, h, offs[k])]) IN
     IF \E k \in 1..h.cells : raw[k].nr > 4 THEN Err("absent_or_bad_refcount")
     ELSE IF \E k \in 1..h.cells : ~raw[k].tagok THEN Err("completion_tag")
     ELSE IF \E k \in 1..h.cells : raw[k].ex = 1 /\ raw[k].n < 8 THEN Err("exotic_without_type")
@@ -118,9 +121,9 @@ DecodeWith(B, hint, deep) ==
                 IN ~SmallBE(B, h.idxoff + (k - 1) * h.offb, h.offb)
                    \/ (IF h.hascache THEN e \div 2 ELSE e) # offs[k + 1] - h.dataoff
          THEN Err("index_not_cumulative")
-    ELSE LET bheap == [k \in 1..h.cells |-> [t |-> IF raw[k].ex = 1 THEN raw[k].y[1] ELSE 0,
-                                             n |-> raw[k].n, y |-> raw[k].y, r |-> raw[k].refs]]
-             heap  == Flip(bheap)
+    ELSE LET bheap == Tup([k \in 1..h.cells |-> [t |-> IF raw[k].ex = 1 THEN raw[k].y[1] ELSE 0,
+                                                 n |-> raw[k].n, y |-> raw[k].y, r |-> raw[k].refs]])
+             heap  == Tup(Flip(bheap))
              N     == h.cells
              masks == MasksOf(heap)
     IN IF \E k \in 1..N : heap[k].t \notin {0, 1, 2, 3, 4} THEN Err("unknown_exotic_type")
